@@ -40,6 +40,9 @@ SPECS = [
     ("SCORED_LEVELS", "src/versioning/version.rs", r"fn finalize\(&mut self\) \{.*?for level in 0\.\.([^{]+?)\{"),
     ("STARTING_MULTIPLE_BYTES", "src/versioning/version.rs", r"let starting_multiple_bytes: f64 = ([^;]+);"),
     ("LEVEL_ONE_MAX_BYTES", "src/versioning/version.rs", r"let mut level = level;\s*let mut result: f64 = ([^;]+);"),
+    # compaction tunables: grandparent overlap limit of a flushed table, size limit of expanded inputs
+    ("GRANDPARENT_OVERLAP_MULTIPLIER", "src/compaction/utils.rs", r"fn max_grandparent_overlap_bytes_from_options\(options: &DbOptions\) -> u64 \{\s*options\.max_file_size\(\) \* (\d+)"),
+    ("EXPANDED_COMPACTION_MULTIPLIER", "src/compaction/manifest.rs", r"self\.max_output_file_size_bytes \* (\d+)"),
     # seek budget of a new table file (`FileMetadata::set_file_size`)
     ("SEEK_DATA_SIZE_THRESHOLD", "src/config.rs", r"const SEEK_DATA_SIZE_THRESHOLD_KIB: u64 = ([^;]+);"),
     ("MIN_ALLOWED_SEEKS", "src/versioning/file_metadata.rs", r"if allowed_seeks < (\d+) \{\s*allowed_seeks = \1;"),
